@@ -411,6 +411,13 @@ class Check:
             where = f"{m.group(1)}:{m.group(2)}" if m else "?"
             self.broken.append({"where": where, "error": err.strip()[-1500:]})
             self.coverage["discharged"] = 0
+            try:
+                div = fragment_divergence(self.groups)
+            except Exception as e:  # the search is best effort
+                div = [{"difference": f"search crashed: {e}"}]
+            if div:
+                self.broken[-1]["fragment_divergence"] = div
+                self.notes["fragment_divergence"] = div
             return False
         # Print Assumptions output: one block per theorem, in order
         blocks = re.split(r"(?=Closed under the global context|Axioms:)", out)
@@ -498,6 +505,98 @@ class Check:
               f"known={len(seen_known)} wall={ev['wall_s']}s")
         sys.stdout.flush()
         return 1 if new else 0
+
+
+# --------------------------------------------------------------------------
+# failing-input search, engine (b): where does a regenerated fragment differ from the pinned one?
+# --------------------------------------------------------------------------
+
+_DEF = re.compile(r"^Definition (\w+)((?: \(\w+ : \w+\))*) : ([^:=]+?) :=", re.M)
+
+
+def _frag_defs(path):
+    out = {}
+    try:
+        txt = open(path).read()
+    except OSError:
+        return out
+    for m in _DEF.finditer(txt):
+        args = re.findall(r"\((\w+) : (\w+)\)", m.group(2))
+        out[m.group(1)] = (args, [t.strip() for t in m.group(3).split("*")])
+    return out
+
+
+def fragment_divergence(groups, timeout=300):
+    """for every definition of Gen/Frag_<g>.v whose signature equals the pinned one, search a small
+    boundary grid (inside coqc, vm_compute) for an argument tuple on which the two differ"""
+    found = []
+    for g in groups or []:
+        gen_defs = _frag_defs(os.path.join(GEN, f"Frag_{g}.v"))
+        pin_defs = _frag_defs(os.path.join(COQ, "Pinned", f"Frag_{g}.v"))
+        common_defs = [n for n in gen_defs if n in pin_defs and gen_defs[n] == pin_defs[n]]
+        for n in gen_defs:
+            if n not in pin_defs or gen_defs[n] != pin_defs[n]:
+                found.append({"fragment": f"{g}.{n}", "difference": "signature changed or fragment missing in pinned copy"})
+        if not common_defs:
+            continue
+        body = ["From Coq Require Import ZArith QArith List Bool.", "Import ListNotations.",
+                f"Require SB3V.Gen.Frag_{g}.", "Require Import Coq.QArith.Qminmax Coq.QArith.Qabs.",
+                "Definition gZ : list Z := [0; 1; 2; 3; 4; 7; (-1)]%Z.",
+                "Definition gQ : list Q := [0; 1; (-1); (1#2); 2; (3#4)]%Q.",
+                "Definition gB : list bool := [true; false].",
+                "Definition pQ (q : Q) : Z * Z := (Qnum q, Zpos (Qden q)).",
+                # the pinned copy is loaded from its file under another logical name
+                ]
+        # compile the pinned copy as module SB3V.Pinned.Frag_<g>
+        pin_path = os.path.join(COQ, "Pinned", f"Frag_{g}.v")
+        rc, out, err, _ = coqc_file(pin_path, timeout)
+        if rc != 0:
+            found.append({"fragment": g, "difference": "pinned copy does not compile: " + err[-300:]})
+            continue
+        body.append(f"Require SB3V.Pinned.Frag_{g}.")
+        names = []
+        for n in common_defs:
+            args, res = gen_defs[n]
+            if not args:
+                continue
+            grid = {"Z": "gZ", "Q": "gQ", "bool": "gB"}
+            if any(t not in grid for _, t in args) or any(t not in grid for t in res):
+                continue
+            small = len(args) > 5
+            prod = None
+            for a, t in reversed(args):
+                gexp = grid[t] if not small else f"(firstn 4 {grid[t]})"
+                prod = gexp if prod is None else f"(list_prod {gexp} {prod})"
+            pat = None
+            for a, t in reversed(args):
+                pat = a if pat is None else f"({a}, {pat})"
+            call = lambda mod: f"(SB3V.{mod}.Frag_{g}.{n} " + " ".join(a for a, _ in args) + ")"  # noqa: E731
+            eqs = {"Z": "Z.eqb", "Q": "Qeq_bool", "bool": "Bool.eqb"}
+            if len(res) == 1:
+                eq = f"({eqs[res[0]]} {call('Gen')} {call('Pinned')})"
+            else:
+                comps = []
+                for k, t in enumerate(res):
+                    def proj(x, k=k):
+                        e = x
+                        for _ in range(len(res) - 1 - k if k > 0 else len(res) - 1):
+                            e = f"(fst {e})"
+                        return e if k == 0 else f"(snd {e})"
+                    comps.append(f"({eqs[t]} {proj(call('Gen'))} {proj(call('Pinned'))})")
+                eq = "(" + " && ".join(comps) + ")%bool"
+            show = "(" + ", ".join((f"pQ {a}" if t == "Q" else a) for a, t in args) + ")" if len(args) > 1 else (f"pQ {args[0][0]}" if args[0][1] == "Q" else args[0][0])
+            body.append(f"Eval vm_compute in (hd_error (map (fun '{pat} => {show}) (filter (fun '{pat} => negb {eq}) {prod}))).")
+            names.append((n, [a for a, _ in args]))
+        try:
+            vals = coq_eval_text(f"fragdiff_{g}", "\n".join(body), timeout)
+        except (CoqError, ValueError) as e:
+            found.append({"fragment": g, "difference": f"divergence search failed: {str(e)[-300:]}"})
+            continue
+        for (n, argnames), v in zip(names, vals):
+            if v is not None:
+                w = v[1] if isinstance(v, tuple) and v and v[0] == "Some" else v
+                found.append({"fragment": f"{g}.{n}", "arguments": argnames, "first_differing_input": w})
+    return found
 
 
 def shrink_list(items, fails, max_rounds=200):
